@@ -128,6 +128,20 @@ def cases(tier, rng):
             n = 2 if kind == "twochar" else 1
             for ch in d3["payload_alphabet"]:
                 out.append(ctx.replace(d3["hole"], c03.literal(kind, ch * n)))
+    # bodies and branches that consist ONLY of tokens that do nothing (layout newline, space, a lone digraph head,
+    # an unassigned digraph): every structure position must still be a valid (non-empty) Python block
+    for nop in ["\n", " ", "k", "∆", "ø", "Þ", "¨", "kÞ", "∆Þ", "øø", "\n\n", " \n", "k ", "#c\n", "¨k"]:
+        for ctx in ("1[□|2]", "1[2|□]", "1[□]", "0[1|□|3]", "0[1|2|□]", "3(□)", "3(i|□)", "{□}", "1{□|2}", "1{2|□}", "λ□;", "λ2|□;",
+                    "ƛ□;", "'□;", "µ□;", "⟨□⟩", "⟨1|□⟩", "⟨□|1⟩", "@f|□;", "@f:1|□;", "v□", "₌□+", "≬++□", "[(λ⟨□⟩;)]", "1[□", "3(□", "λ□"):
+            out.append(ctx.replace("□", nop))
+    # every PAIR of dictionary-compression characters as a string (the two-character codes index the dictionary:
+    # its last valid index and the first invalid one are among them), and every single one
+    from vyxal.encoding import compression
+    for c1 in compression:
+        out.append("`" + c1 + "`")
+        out.append("‛" + c1 + "a")
+        for c2 in compression:
+            out.append("`" + c1 + c2 + "`")
     # NAMES written with any plain character of the code page (the parser / transpiler keep identifier characters)
     from vyxal.encoding import codepage
     for ch in codepage:
